@@ -244,6 +244,8 @@ pub enum Rec {
         len: usize,
         routed: Routed,
         injected: bool,
+        /// serial (unique per node) of the connection the datagram was handed to, if any
+        to_serial: Option<u64>,
     },
     LinkDrop { t: Duration, idx: u64, len: usize },
     Timer { t: Duration, node: usize, ch: ConnectionHandle },
@@ -684,13 +686,13 @@ impl<A: App> World<A> {
         let Some(node) = self.node_of(f.dst) else {
             self.recs.push(Rec::Deliver {
                 t: self.t, node: usize::MAX, idx: f.idx, src: f.src, len: f.data.len(),
-                routed: Routed::NoSuchNode, injected: f.injected,
+                routed: Routed::NoSuchNode, injected: f.injected, to_serial: None,
             });
             return Routed::NoSuchNode;
         };
         if self.deaf[node] {
             self.recs.push(Rec::Deliver {
-                t: self.t, node, idx: f.idx, src: f.src, len: f.data.len(), routed: Routed::Nothing, injected: f.injected,
+                t: self.t, node, idx: f.idx, src: f.src, len: f.data.len(), routed: Routed::Nothing, injected: f.injected, to_serial: None,
             });
             return Routed::Nothing;
         }
@@ -701,7 +703,7 @@ impl<A: App> World<A> {
         // before any response they provoke; the routing outcome is filled in afterwards
         let pos = self.recs.len();
         self.recs.push(Rec::Deliver {
-            t: self.t, node, idx: f.idx, src: f.src, len, routed: Routed::Nothing, injected: f.injected,
+            t: self.t, node, idx: f.idx, src: f.src, len, routed: Routed::Nothing, injected: f.injected, to_serial: None,
         });
         let ev = self.nodes[node].ep.handle(now, f.src, None, f.ecn, BytesMut::from(&f.data[..]), &mut buf);
         let routed = match ev {
@@ -723,8 +725,13 @@ impl<A: App> World<A> {
             }
             None => Routed::Nothing,
         };
-        if let Rec::Deliver { routed: r, .. } = &mut self.recs[pos] {
+        let ser = match &routed {
+            Routed::Conn(ch) | Routed::New(Some(ch)) => self.nodes[node].conns.get(ch).map(|s| s.serial),
+            _ => None,
+        };
+        if let Rec::Deliver { routed: r, to_serial, .. } = &mut self.recs[pos] {
             *r = routed.clone();
+            *to_serial = ser;
         }
         match &routed {
             Routed::Conn(ch) | Routed::New(Some(ch)) => self.settle_conn(node, *ch),
